@@ -164,7 +164,7 @@ def run(chk):
                 sc = abs(p[1])
                 exp = (a * p[0] + b, a * p[1]) + ((p[2],) if k == 3 else ())
                 ok = abs(q[0] - exp[0]) <= tol * (a * sc + abs(exp[0])) and abs(q[1] - exp[1]) <= tol * a * sc and \
-                    (k == 2 or abs(q[2] - p[2]) <= max(tol, 1e-6) * p[2])
+                    (k == 2 or abs(q[2] - p[2]) <= max(tol, 1e-6) * abs(p[2]))
                 if not ok:
                     chk.fail("fit(a*x+b) == (a*loc+b, a*scale[, shape]) for method %s" % name, dict(info, a=a, b=b, method=name),
                              [float(v) for v in exp], [float(v) for v in q], method=name)
@@ -176,7 +176,11 @@ def run(chk):
                 chk.fail("pwm2(a*x) == (a*scale, shape)", dict(info, a=a), [a * p[0], p[1]], list(map(float, q)), method="pwm2")
         # moment exactness
         if kind == "wb":
-            lo, sc, sh = weibull.msm(x)
+            try:
+                lo, sc, sh = weibull.msm(x)
+            except ValueError:
+                chk.dist("wb.msm:sample-skewness-outside-bracket")     # outside the estimator's domain (brentq bracket)
+                continue
             w = Weibull(lo, sc, sh)
             m3 = np.mean((x - x.mean()) ** 3) / x.var() ** 1.5
             chk.count("moments.wb.msm")
